@@ -867,7 +867,7 @@ fn replay(cfg: &Cfg, which: &str, p: &std::path::Path) -> Stats {
             }
         } else {
             let input = unhex(m.get("input").map(|s| s.as_str()).unwrap_or("")).unwrap_or_default();
-            let mut gb = GuardBuf::new(4);
+            let mut gb = GuardBuf::new(input.len() / 4096 + 4);
             c07_case(t, &mut gb, &shape, &text, 0, "replay", &input);
         }
     });
